@@ -13,6 +13,9 @@ Part A (policy): the REAL `meson setup --backend=none` of $VERIF_REPO on generat
   -Dpkg_config_path that the reconfiguration reorders / shrinks / grows (the answer must equal that of a fresh
   configuration with the same options); fallback / provide subprojects that register their overrides (the name,
   another name, a program) and then FAIL, followed by more lookups (a failed subproject provides nothing).
+  The system dependency also comes with an UNKNOWN version (empty Version: field) against constraint shapes
+  (upper bounds, inequalities, arrays): "never met if the version is unknown", on detection and from the cache;
+  the cosmetic not_found_message: keyword is sprinkled over the lookups (same arguments otherwise -> same answer).
 Part B (integrity): wrap worlds with a corruption class at a location, a recorded-hash class and an injected
   fault, through `meson setup` and `meson subprojects download`.  Monitors wrap shutil.unpack_archive,
   urllib.request.urlopen, Resolver.get_data/check_hash/copy_tree.  Online: at every unpack the monitor hashes
@@ -111,9 +114,15 @@ def _ref_lookup(lk: dict, world: T.Optional[dict] = None) -> R.Lookup:
         has_var = lk.get('eform', 'pair') == 'pair'
     else:
         has_var = bool(world.get('provide')) and not world.get('sub_overrides')
-    return R.Lookup(constraint=lk['constraint'], required=lk['required'],
+    con = lk['constraint']
+    return R.Lookup(constraint=tuple(con) if isinstance(con, list) else con, required=lk['required'],
                     allow_fallback=lk['allow_fallback'], explicit_fallback=lk['explicit'],
                     static=lk.get('static'), has_var=has_var)
+
+
+def _same_args(a: dict, b: dict) -> bool:
+    strip = lambda d: {k: (list(v) if isinstance(v, tuple) else v) for k, v in d.items() if k != 'nfm'}  # noqa: E731
+    return strip(a) == strip(b)
 
 
 def _policy_mechanism(world: dict, lk: dict, allowed: T.Set[tuple], obs: tuple, facts: dict) -> str:
@@ -139,6 +148,12 @@ def _policy_mechanism(world: dict, lk: dict, allowed: T.Set[tuple], obs: tuple, 
         flags.append('static-' + str(lk['static']).lower())
     if world.get('sub_dl_how', 'same') != 'same':
         flags.append('sub-default_library-via-' + world['sub_dl_how'])
+    if obs == ('system', 'unknown') and lk['constraint'] is not None:
+        # dependency.yaml `version`: "These requirements are never met if the version is unknown"
+        remembered = bool(facts.get('remembered_unknown_system')) or bool(world.get('reconfigured_from'))
+        if remembered:
+            return 'policy:unknown-version-satisfies-constraint-from-cache'
+        return 'policy:unknown-version-satisfies-constraint-on-detection' + (':' + ','.join(flags) if flags else '')
     if {a[0] for a in allowed} == {obs[0]}:
         # right provider, wrong version: e.g. a stale cached system dependency after the search path changed
         head = f'policy:wrong-{obs[0]}-version' + ('-after-reconfigure' if world.get('reconfigured_from') else '')
@@ -249,6 +264,7 @@ def _judge_policy_run(world: dict, r: runner.Result, out: dict, c: T.Callable, p
             answers.append(obs)
             rl = _ref_lookup(lk, world)
             allowed, tag, facts = R.expect(w, st, rl)
+            facts = dict(facts, remembered_unknown_system=any(v[0] == ('system', 'unknown') for v in st.sticky.values()))
             c('A:lookups-judged')
             c('A:tag-' + tag)
             detail = {**witness_base, 'lookup_index': i, 'lookup': lk, 'observed': list(obs),
@@ -258,6 +274,11 @@ def _judge_policy_run(world: dict, r: runner.Result, out: dict, c: T.Callable, p
                 out['violations'].append(('policy:inexplicable-dependency-object', detail))
             elif obs == ('error',) and (r.traceback or r.rc != 1):
                 out['violations'].append(('policy:internal-error-instead-of-answer', detail))
+            elif obs == ('system', 'unknown') and lk['constraint'] is not None:
+                # decided by the documents whatever else the cell leaves open: "These requirements are never met if
+                # the version is unknown"
+                c('rule:documented-answer')
+                out['violations'].append((_policy_mechanism(world, lk, allowed, obs, facts), detail))
             elif tag == 'doc':
                 c('rule:documented-answer')
                 if obs not in allowed:
@@ -265,7 +286,8 @@ def _judge_policy_run(world: dict, r: runner.Result, out: dict, c: T.Callable, p
             else:
                 c('A:open-' + ('explained' if obs in allowed else 'other'))
             # same arguments immediately repeated -> same answer (whatever the documents say about the cell)
-            if prev is not None and prev[0] == lk:
+            # (not_found_message: is cosmetic - it is not part of the arguments that select the dependency)
+            if prev is not None and _same_args(prev[0], lk):
                 c('rule:repeat-same-answer')
                 if prev[1] != obs:
                     out['violations'].append(('policy:repeated-lookup-differs', dict(detail, previous=list(prev[1]))))
@@ -693,12 +715,12 @@ def main() -> int:
     # ---- Part A -------------------------------------------------------------------------------------
     if quick:
         core = G.a_core_table(rng)
-        cells = core + [c for c in G.a_pairwise_sample(rng, 320) if c not in core]
+        cells = core + [c for c in G.a_pairwise_sample(rng, 220) if c not in core]
     else:
         cells = G.a_full_table()
     n_core = len(core) if quick else len(cells)
     for k, cell in enumerate(cells):
-        cell = dict(cell, sub_overrides=rng.random() < 0.5, eform=rng.choice(['pair', 'single']),
+        cell = dict(cell, nfm=rng.choice([0, 0, 1, 2, 3]), sub_overrides=rng.random() < 0.5, eform=rng.choice(['pair', 'single']),
                     afform=rng.choice(['kw', 'emptyfb']), sub_download=rng.random() < 0.2,
                     optstyle=rng.choice(['D', 'long']))
         if k >= n_core or not quick:
@@ -713,14 +735,20 @@ def main() -> int:
     # placed right after the core table: they belong to the prioritised part
     items[n_core:n_core] = [('A', G.a_cell_to_world(c)) for c in static_cells]
     n_core += len(static_cells)
+    # version of the system dependency (incl. unknown) x constraint shapes; an unknown-version dependency remembered
+    # from a lookup without constraint and then asked for with one (also the directed probe of the known finding)
+    version_items = [('A', G.a_cell_to_world(c)) for c in G.a_version_table(rng, full=not quick)]
+    version_items += [('A', wld) for wld in G.a_unknown_version_sequences(rng, 24 if quick else 120)]
+    items[n_core:n_core] = version_items
+    n_core += len(version_items)
     n_cells = len(items)
     names = list(G.A_FACTORS)
     need = sum(len(G.A_FACTORS[a]) * len(G.A_FACTORS[b]) for i, a in enumerate(names) for b in names[i + 1:])
     got = len({(a, c[a], b, c[b]) for c in cells for i, a in enumerate(names) for b in names[i + 1:]})
     chk.notes['pairwise_factor_value_pairs'] = {'needed': need, 'covered_by_planned_cells': got}
-    for wld in G.a_sequence_worlds(rng, 120 if quick else 2500):
+    for wld in G.a_sequence_worlds(rng, 100 if quick else 2500):
         items.append(('A', wld))
-    for wld in G.a_reconfigure_worlds(rng, 90 if quick else 900):
+    for wld in G.a_reconfigure_worlds(rng, 80 if quick else 900):
         items.append(('A', wld))
     for wld in G.a_failing_sub_worlds(rng, 60 if quick else 800):
         items.append(('A', wld))
@@ -731,7 +759,7 @@ def main() -> int:
         # keep every fault case and every corruption/hash case once; trim the rest by the seed
         bspecs = bspecs[:330]
     items += [('B', s) for s in bspecs]
-    chk.notes['planned'] = {'A_cells': n_cells, 'A_static_table_cells': len(static_cells), 'A_sequences': n_a - n_cells, 'B_cases': len(items) - n_a}
+    chk.notes['planned'] = {'A_cells': n_cells, 'A_static_table_cells': len(static_cells), 'A_version_cells': len(version_items), 'A_sequences': n_a - n_cells, 'B_cases': len(items) - n_a}
 
     # run in slices so that the time budget can stop the exploration (counted, never silent)
     t0 = time.time()
@@ -742,8 +770,19 @@ def main() -> int:
     # on a loaded machine trims only the filler
     first = list(range(n_core)) + list(range(n_a, len(items)))
     rest = list(range(n_core, n_a))
-    rng.shuffle(first)
     rng.shuffle(rest)
+    # ... but a share of every filler family (sequences, reconfigurations, failing subprojects are the only place where
+    # some rules are evaluated at all) belongs to the prioritised part, so that a cut leaves every monitor reached
+    fam: T.Dict[str, T.List[int]] = {}
+    for j in rest:
+        wld = items[j][1]
+        key = 'reconf' if wld.get('phase2') else ('failing' if wld.get('side_overrides') else
+                                                  ('seq' if len(wld['seq']) != 2 or not _same_args(*wld['seq']) else 'cell'))
+        fam.setdefault(key, []).append(j)
+    promoted = [j for key, js in sorted(fam.items()) for j in js[:(45 if quick else 200)]]
+    first += promoted
+    rest = [j for j in rest if j not in set(promoted)]
+    rng.shuffle(first)
     order = first + rest
     skipped = 0
     for i in range(0, len(order), step):
